@@ -8,6 +8,7 @@ package main
 import (
 	"fmt"
 	"math/big"
+	"sort"
 	"strings"
 	"unicode"
 	"unicode/utf8"
@@ -618,8 +619,12 @@ func vGenBook(t *rapid.T, o vBookOpts, label string) (vDoc, vBookInfo) {
 	if maxd < 1 {
 		maxd = 1
 	}
+	flat := rapid.IntRange(0, 7).Draw(t, label+".flat") == 0 // no recipe refers to a recipe
 	for i := range levels {
 		levels[i] = rapid.IntRange(0, maxd-1).Draw(t, label+".level")
+		if flat {
+			levels[i] = 0
+		}
 	}
 	recs := make([]vRec, nrec)
 	for i := 0; i < nrec; i++ {
@@ -750,6 +755,39 @@ func vGenBook(t *rapid.T, o vBookOpts, label string) (vDoc, vBookInfo) {
 			vRec{Head: a + sep + b, HL: vGenHeadLayout(t, o.Layout, label+".twhl"), Lines: []vLine{{Kind: vkEntry, Name: c, Num: num(label + ".twv2"), L: vGenEntryLayout(t, o.Layout, label+".twel")}}})
 		nrec = len(recs)
 	}
+	// one book in 10 holds two recipes whose resolved lists have the same length and the same first, middle and last
+	// name but differ in between (nutrient lists that almost coincide), and a parent that uses both
+	if !o.NoTwins && o.MaxDepth >= 2 && rapid.IntRange(0, 9).Draw(t, label+".neartwin") == 0 {
+		n := rapid.IntRange(5, 9).Draw(t, label+".neartwinn") // names nt~0..nt~(n-1); each list leaves one out
+		m := (n - 1) / 2
+		i := rapid.IntRange(1, m).Draw(t, label+".neartwini")
+		j := rapid.IntRange(1, m).Draw(t, label+".neartwinj")
+		if i == j {
+			j = i%m + 1
+		}
+		if i != j {
+			plain := vLayout{Indent: "  ", Sep: ": ", EOL: "\n"}
+			mk := func(head string, omit int, base int) vRec {
+				r := vRec{Head: head, HL: vLayout{EOL: "\n"}}
+				for k := 0; k < n; k++ {
+					if k != omit {
+						r.Lines = append(r.Lines, vLine{Kind: vkEntry, Name: fmt.Sprintf("nt~%d", k), Num: fmt.Sprint(base + k), L: plain})
+					}
+				}
+				return r
+			}
+			recs = append(recs, mk("near~one", i, 10), mk("near~two", j, 100),
+				vRec{Head: "near~both", HL: vLayout{EOL: "\n"}, Lines: []vLine{{Kind: vkEntry, Name: "near~one", Num: "1", L: plain}, {Kind: vkEntry, Name: "near~two", Num: "2", L: plain}}})
+			nrec = len(recs)
+		}
+	}
+	// one book in 6 lists the ingredients of every recipe in ascending name order (repeated ingredients end up next to
+	// each other)
+	if rapid.IntRange(0, 5).Draw(t, label+".sortedlines") == 0 {
+		for ri := range recs {
+			sort.SliceStable(recs[ri].Lines, func(a, b int) bool { return recs[ri].Lines[a].Name < recs[ri].Lines[b].Name })
+		}
+	}
 	// one decimal-mode book in 10 holds a sub-recipe whose element gets two tiny contributions, and a parent that scales
 	// it by 1e8 or more: an intermediate total far below any printed digit that matters once it is multiplied
 	if !o.Exact && !o.NoTwins && len(basics) > 0 && rapid.IntRange(0, 9).Draw(t, label+".tiny") == 0 {
@@ -837,6 +875,8 @@ func vCivil(day int) (y, m, d int) {
 	return y, m, day + 1
 }
 
+var vMonthFull = [12]string{"January", "February", "March", "April", "May", "June", "July", "August", "September", "October", "November", "December"}
+
 var vMonthAbbr = [12]string{"Jan", "Feb", "Mar", "Apr", "May", "Jun", "Jul", "Aug", "Sep", "Oct", "Nov", "Dec"}
 
 // vFmtDay renders a day number under one of the Go layouts the checks use.
@@ -866,6 +906,12 @@ func vFmtDay(day int, layout string) string {
 		return fmt.Sprintf("%d %s %04d", d, vMonthAbbr[m-1], y)
 	case "20060102":
 		return fmt.Sprintf("%04d%02d%02d", y, m, d)
+	case "2006/1/2": // fields of variable width
+		return fmt.Sprintf("%04d/%d/%d", y, m, d)
+	case "January 2, 2006":
+		return fmt.Sprintf("%s %d, %04d", vMonthFull[m-1], d, y)
+	case "Mon 2 Jan 2006": // with the day of the week (day 0 = 2021-01-01, a Friday)
+		return fmt.Sprintf("%s %d %s %04d", [7]string{"Fri", "Sat", "Sun", "Mon", "Tue", "Wed", "Thu"}[((day%7)+7)%7], d, vMonthAbbr[m-1], y)
 	case "2006-01-02 15:04 -0700": // midnight UTC; records with a time of day and an offset are rendered by their generator
 		return fmt.Sprintf("%04d-%02d-%02d 00:00 +0000", y, m, d)
 	case "2006-01-02 15:04:05.000": // midnight
